@@ -1,6 +1,6 @@
 #!/bin/sh
 # TLC with a large stack for the *main* thread too (ASSUMEs and constant folding run there; a
 # stack size given through JAVA_TOOL_OPTIONS reaches only threads created later).
-# Env: TLC_XMX (default 4g), TLC_OPTS (extra JVM options).
-exec java -Xss1g -Xmx${TLC_XMX:-4g} -XX:+UseParallelGC ${TLC_OPTS:-} \
+# Env: TLC_XMX (default 4g), TLC_OPTS (extra JVM options), TLC_TMPDIR (where TLC unpacks its standard modules; default /tmp).
+exec java -Xss1g -Xmx${TLC_XMX:-4g} -XX:+UseParallelGC -Djava.io.tmpdir="${TLC_TMPDIR:-/tmp}" ${TLC_OPTS:-} \
   -cp /opt/veriftools/tla/tla2tools.jar:/opt/veriftools/tla/CommunityModules-deps.jar tlc2.TLC "$@"
